@@ -42,26 +42,9 @@ theorem ehc_flags (c fo : Int) :
 example : (natStep (.setFee 777) 0 Flags.all (fun _ => none)).map (·.ws) = some [.set (policyTab, 0) 777] := by decide
 example : GoFuncs.policySetFeePerByte 777 true 5 = some [5, 777] := by decide
 
-/-- interop.Context.AddNotification (HFEchidna, Application trigger = 0x40): under the invariant
-    `notification_limit` (the list never exceeds 512) the translated function accepts the notification
-    exactly when the model's `notify` / native-event rule does, and then the list is the appended one;
-    otherwise the list is left as it is and an error is returned (the callers panic). -/
-theorem addNotification_matches_model (old appended : Int) (n : Nat) (hn : n ≤ maxNotifications) :
-    GoFuncs.addNotification old true 64 (n : Int) appended =
-      if n < maxNotifications then ("ok", appended) else ("err", old) := by
-  unfold GoFuncs.addNotification maxNotifications at *
-  by_cases h : n < 512
-  · have : ¬ ((n : Int) = 512) := by omega
-    simp [h, this]
-  · have : (n : Int) = 512 := by omega
-    simp [h, this]
-
-/-- outside the Application trigger (OnPersist / PostPersist natives) the limit does not apply. -/
-theorem addNotification_persist_triggers (old appended n trig : Int) (ht : trig ≠ 64) :
-    GoFuncs.addNotification old true trig n appended = ("ok", appended) := by
-  unfold GoFuncs.addNotification
-  have : ¬ (trig = 64 ∧ n = 512) := fun h => ht h.1
-  simp [this]
+/- interop.Context.AddNotification was tied by translation (addNotification_matches_model) until /repo 0aa93d2 added
+   a type assertion to it (`stackitem.DeepCopy(item, true).(*stackitem.Array)`), which is outside the translator's
+   subset; the limit of 512 notifications is tied by the correspondence stream again (corpus cases at 510..513). -/
 
 /-- callflag.Has, translated, is the model's flag test for every pair of flag sets (16 x 16). -/
 theorem callFlagHas_matches_model (f m : Flags) :
